@@ -63,6 +63,23 @@ func c12(c *Ctx) {
 			}
 			defer op.Close()
 			oracle.CheckThesaurus(c.R, id+"/opened", op, m, o)
+			if i%3 == 0 && m.NumDocs > 0 {
+				// the re-opened segment merged alone, nothing deleted: same thesauri
+				mp := c.Scratch.Path("c12m")
+				defer os.Remove(mp)
+				if _, _, err := zx.Merge(segs(op), zx.Drops([]map[uint32]bool{nil}, nil), mp, nil, nil); err != nil {
+					c.R.Fail("merge-err", "%s: merge of the segment alone: %v", id, err)
+					return
+				}
+				om, err := zx.Open(mp)
+				if err != nil {
+					c.R.Fail("open-err", "%s: merged: %v", id, err)
+					return
+				}
+				defer om.Close()
+				oracle.CheckThesaurus(c.R, id+"/merged-alone", om, m, oracle.ThesOpts{UnknownTerms: []string{"unk"}})
+				c.R.Inc("thes_merged_alone", 1)
+			}
 		})
 		multi := 0
 		for _, th := range m.Thes {
